@@ -81,10 +81,12 @@ func TestVerifC10(t *testing.T) {
 	defer out.close()
 	rng := &verifRng{s: verifSeed()}
 	const cookieName = "verif-session"
-	hosts := []string{"app.example.com", "other.example.com", "example.com", "app.example.com:8443"}
+	hosts := []string{"app.example.com", "other.example.com", "example.com", "app.example.com:8443", "shop.co.uk", "bank.co.uk", "alice.github.io", "bob.github.io"}
 	paths := []string{"/", "/a", "/a/b", "/a/b/c", "/other", "/a/", "/a/b/", "/other/", "/a//b", "/a/./b"}
 	setPool := []string{"k1=v1", "k1=v2", "k2=w; Path=/a", "k3=x; Path=/a/b", "k4=dom; Domain=example.com", "k5=sec; Secure", "k6=ho; HttpOnly", "k1=; Max-Age=0",
-		"k2=gone; Path=/a; Expires=Thu, 01 Jan 1970 00:00:00 GMT", "k7=other; Domain=other.example.com", "k8=p; Path=/other", "k9=long; Max-Age=3600", "bad cookie", "k10=\"quoted\"", "k11=slash; Path=/a/", "k12=deep; Path=/a/b/"}
+		"k2=gone; Path=/a; Expires=Thu, 01 Jan 1970 00:00:00 GMT", "k7=other; Domain=other.example.com", "k8=p; Path=/other", "k9=long; Max-Age=3600", "bad cookie", "k10=\"quoted\"", "k11=slash; Path=/a/", "k12=deep; Path=/a/b/",
+		// Domain attributes naming a public suffix (a compliant jar refuses them or keeps them host-only) and foreign domains
+		"k13=suffix; Domain=co.uk", "k14=suffix; Domain=github.io", "k15=tld; Domain=com", "k16=foreign; Domain=bank.co.uk", "k17=dot; Domain=.example.com"}
 	nh := 60
 	if verifThorough() {
 		nh = 2500
